@@ -180,7 +180,14 @@ class C06(Check):
                 args = {"setup": ";".join(setup), "plans": "|".join(plans), "seed": rng.randrange(1, 1 << 30),
                         "stay": rng.choice([0, 20, 50, 80]), "sync": rng.choice([0.02, 0.1, 0.3, 1]), "mode": rng.choice([0, 0, 2]),
                         "pctd": rng.randint(1, 3), "pctlen": rng.choice([50, 200, 1000]), "cap": 3000000}
-                if rng.random() < 0.5:
+                if not tsan and rng.random() < 0.25:
+                    # ID-counter contention family: every thread evaluates Booleans of shared objects and
+                    # reserves IDs, and every mesh-ID counter operation is a scheduling decision
+                    plans = [";".join(["sbool:%d,%d,%d,%d,%d" % (rng.randrange(3), R(rng), R(rng), R(rng), R(rng)) for _ in range(rng.randint(1, 3))] +
+                                      ["rid:%d" % R(rng)] * rng.randint(0, 2) + p.split(";")[:2]) for p in plans]
+                    args["plans"] = "|".join(plans)
+                    args.update({"hot": 6, "hotrate": 1, "sync": rng.choice([0, 0.01]), "stay": rng.choice([30, 50, 70])})
+                elif rng.random() < 0.5:
                     # targeted preemption: one kind of synchronisation operation (atomic RMW, shared_ptr load/store,
                     # mesh-ID counter, progress counters, mutex) is always a decision, everything else rarely
                     args.update({"hot": rng.choice([3, 4, 5, 6, 6, 8, 9]), "hotrate": rng.choice([0.3, 1]), "sync": rng.choice([0, 0.01, 0.05])})
